@@ -28,6 +28,8 @@ for d in sorted(glob.glob("/tmp/seed_out/*/[0-9]")):
         why = "demonstration not confirmed (pristine=%s patched=%s)" % (dm.get("demo_pristine"), dm.get("demo_patched"))
     elif conf is None:
         why = "repository tests not re-run yet"
+    elif conf.get("dbm_test_contains") and not conf["dbm_test_contains"]["passed"]:
+        why = "TestDBMDict::test_contains fails with the patch"
     elif conf.get("passed") is False:
         why = "repository tests fail with the patch: %s" % conf.get("unexpected_failures")
     if why:
@@ -62,7 +64,8 @@ for d in sorted(glob.glob("/tmp/seed_out/*/[0-9]")):
         "confirmed_here": {
             "demo": "cd <scratch export of /repo HEAD> && HOME=<tmp> /venv/bin/python demo.py -> exit %s on the unchanged tree, exit %s with patch.diff applied" % (dm.get("demo_pristine"), dm.get("demo_patched")),
             "tests": conf.get("cmd") or conf.get("note", ""),
-            "tests_summary": conf.get("summary", ""),
+            "tests_summary": conf.get("summary", "") + ((" ; " + conf["dbm_test_contains"]["cmd"] + ": " + conf["dbm_test_contains"]["summary"])
+                                                       if conf.get("dbm_test_contains") else ""),
             "checks_run": "every registered quick check with --root <patched scratch copy>",
         },
         "detected_by": fired,
@@ -71,7 +74,7 @@ for d in sorted(glob.glob("/tmp/seed_out/*/[0-9]")):
     index.append({"name": name, "path": name, "kind": "seed", "property": prop, "own": prop in fired})
     rows.append((name, prop, meta.get("summary", ""), fired))
 nb = 0
-for d in sorted(glob.glob("/tmp/benign_out/*/[0-9]")):
+for d in sorted(glob.glob("/tmp/benign_out/*/[0-9]*")):
     area, k = os.path.basename(os.path.dirname(d)), os.path.basename(d)
     if not os.path.exists(os.path.join(d, "patch.diff")):
         continue
